@@ -695,7 +695,7 @@ func tlcRdCases(c *Ctx) []json.RawMessage {
 }
 
 func checkC04(c *Ctx) {
-	c.rule = "MC: every behaviour of ReaderImpl (real constants) within the cfg bounds is accepted by ReaderAbs and is a behaviour of the integer core (RefinesCore). APALACHE: the core's invariants (no loss / duplication inside the buffer, cursor = base + ri, ReadLen, room while reading, the C04 contract on every completed call) are inductive for operands, streams, chunkings and capacities of any size. GEN: every transition of the bounded model is replayed on the real reader (Gen_BufReader). TRACE: one case = (reader flavour, stream, source fault/fragmentation policy, operation history); bounded-exhaustive histories over a boundary-valued alphabet x source behaviours (incl. the well-known error values of real connections: EINTR, EAGAIN, deadline, closed, cancelled, bare and wrapped, with and without data) plus seeded random histories; every case is executed on the real bufiox reader and every event is judged by TLC against ReaderAbs (violations) and ReaderImpl (drift). Also: sources whose dynamic type is a net.Conn with Len / Buffered / Available (readable right now) / ReadByte; counts near MaxInt64 / 2^62 / 2^32 once the source error is latched (described to TLC clamped to 2^30)."
+	c.rule = "MC: every behaviour of ReaderImpl (real constants) within the cfg bounds is accepted by ReaderAbs and is a behaviour of the integer core (RefinesCore). APALACHE: the core's invariants (no loss / duplication inside the buffer, cursor = base + ri, ReadLen, room while reading, the C04 contract on every completed call) are inductive for operands, streams, chunkings and capacities of any size. GEN: every transition of the bounded model is replayed on the real reader (Gen_BufReader). TRACE: one case = (reader flavour, stream, source fault/fragmentation policy, operation history); bounded-exhaustive histories over a boundary-valued alphabet x source behaviours (incl. the well-known error values of real connections: EINTR, EAGAIN, deadline, closed, cancelled, bare and wrapped, with and without data) plus seeded random histories; every case is executed on the real bufiox reader and every event is judged by TLC against ReaderAbs (violations) and ReaderImpl (drift). Also: sources whose dynamic type is a net.Conn with Len / Buffered / Available (readable right now) / ReadByte; counts near MaxInt64 / 2^62 / 2^32 once the source error is latched (described to TLC clamped to 2^30). Single frames of 65 and 130 MiB released with the next frames buffered behind them."
 	if c.Thorough() {
 		c.MC("MC_BufReader.tla", "MC_BufReader_thorough.cfg", 12)
 	} else {
